@@ -397,6 +397,14 @@ class ScenarioGenerator:
                     u.PRIVESC_ACCESS: u.ROOT_ACCESS
                 }
                 privescs_added += 1
+            elif all(
+                    f"pe_{p}" + ("" if os is None else f"_{os}") in privescs
+                    for p in self.processes
+            ):
+                # every process already has a privesc for this OS, so choose
+                # a different OS for this privesc (this OS remains covered
+                # by the privescs added so far)
+                os_choices[privescs_added] = np.random.choice(possible_os)
         self.privescs = privescs
 
     def _get_action_probs(self, num_actions, action_probs):
